@@ -22,7 +22,8 @@ N_WORKERS = int(os.environ.get('VERIF_WORKERS', str(min(16, os.cpu_count() or 1)
 
 
 class Verdict:
-    __slots__ = ('ok', 'nontrivial', 'key', 'labels', 'bucket', 'detail', 'known', 'inconclusive', 'sample')
+    __slots__ = ('ok', 'nontrivial', 'key', 'labels', 'bucket', 'detail', 'known', 'inconclusive', 'sample',
+                 'extra')
 
     def __init__(self, ok: bool = True, nontrivial: bool = False, key: Optional[str] = None,
                  labels: Sequence[str] = (), bucket: str = '', detail: Any = None,
@@ -36,6 +37,10 @@ class Verdict:
         self.known = known
         self.inconclusive = inconclusive
         self.sample = sample
+        # a verdict that stands for a whole campaign of evaluations (vlib/fuzz.py): dict with 'evaluations',
+        # 'labels' {label: count}, 'nontrivial_keys', 'samples', 'inconclusive', 'failures' [{bucket, case, detail,
+        # known, sub}]
+        self.extra = None
 
 
 def fail(bucket: str, detail: Any = None, **kw) -> Verdict:
@@ -105,6 +110,27 @@ class _ShardState:
             self.known[v.known] += 1
             if v.known not in self.known_examples:
                 self.known_examples[v.known] = {'case': case, 'detail': v.detail}
+        x = v.extra
+        if x:
+            self.evaluations += int(x.get('evaluations', 0))
+            for l, n in (x.get('labels') or {}).items():
+                self.labels[l] += n
+            self.nontrivial_keys.update(x.get('nontrivial_keys') or [])
+            self.inconclusive += int(x.get('inconclusive', 0))
+            for smp in (x.get('samples') or []):
+                if len(self.samples) < 6:
+                    self.samples.append(smp)
+            for f in (x.get('failures') or []):
+                if f.get('known'):
+                    self.known[f['known']] += 1
+                    self.known_examples.setdefault(f['known'], {'case': f['case'], 'detail': f.get('detail'),
+                                                                'sub': f.get('sub')})
+                else:
+                    size = len(json.dumps(f['case'], default=str))
+                    cur = self.failures.get(f['bucket'])
+                    if cur is None or size < cur['size']:
+                        self.failures[f['bucket']] = {'case': f['case'], 'detail': f.get('detail'), 'size': size,
+                                                      'sub': f.get('sub')}
 
     def result(self) -> dict:
         return {
@@ -367,7 +393,7 @@ def run_property(mod, tier: str, seed: int, only_subs: Optional[List[str]] = Non
         known_total.update(a['known'])
         errors.extend('[%s] %s' % (s.name, e) for e in a['errors'])
         for b, rec in sorted(a['failures'].items()):
-            path = _write_replay(prop_id, s.name, b, rec, tier, seed)
+            path = _write_replay(prop_id, rec.get('sub') or s.name, b, rec, tier, seed)
             violations.append((path, s.name, b, rec.get('detail')))
         sub_cov[s.name] = {
             'evaluations': a['evaluations'],
@@ -391,7 +417,7 @@ def run_property(mod, tier: str, seed: int, only_subs: Optional[List[str]] = Non
                 ex = a['known_examples'].get(kf, {'case': None, 'detail': None})
                 ex = dict(ex)
                 ex.setdefault('size', 0)
-                path = _write_replay(prop_id, s.name, 'unlisted-finding:' + kf, ex, tier, seed)
+                path = _write_replay(prop_id, ex.get('sub') or s.name, 'unlisted-finding:' + kf, ex, tier, seed)
                 violations.append((path, s.name, 'unlisted-finding:' + kf, ex.get('detail')))
 
     wall = time.time() - t0
